@@ -149,8 +149,15 @@ func c10Arr32(b []byte) (a [32]byte) { copy(a[:], b); return }
 
 // Verif_C10_Precompute: Precompute(shared, pk, sk) = HSalsa20(X25519(sk, pk), 0^16) for all
 // keys, with shared holding arbitrary previous contents, also when shared aliases pk or sk;
-// pk/sk unchanged otherwise. (Real HSalsa20, X25519 uninterpreted.)
-func Verif_C10_Precompute() {
+// pk/sk unchanged otherwise. X25519 uninterpreted; choice: real HSalsa20 code (terms fold) or
+// HSalsa20 as the uninterpreted function C09 ties to the specification (arguments compared).
+func Verif_C10_Precompute() { c10Precompute(true) }
+
+// Verif_C10_PrecomputeReal: the same with the real HSalsa20 code (terms fold).
+func Verif_C10_PrecomputeReal() { c10Precompute(false) }
+
+func c10Precompute(abstractSalsa bool) {
+	c10AbstractSalsa = abstractSalsa
 	pk := c10Arr32(verifrt.Bytes(32))
 	sk := c10Arr32(verifrt.Bytes(32))
 	shared := c10Arr32(verifrt.Bytes(32))
@@ -182,6 +189,7 @@ func Verif_C10_Precompute() {
 // = secretbox.Open under the same key (secretbox itself is decided in its own harness);
 // message lengths {0, 1, 33, 70}.
 func Verif_C10_SealOpen() {
+	c10AbstractSalsa = true
 	n := []int{0, 1, 33, 70}[verifrt.Choose(0, 3)]
 	pk := c10Arr32(verifrt.Bytes(32))
 	sk := c10Arr32(verifrt.Bytes(32))
@@ -254,6 +262,7 @@ func (r *c10Reader) Read(p []byte) (int, error) {
 // spare capacity. OpenAnonymous on arbitrary input: rejects len < 48, otherwise equals
 // Open(box[32:], nonce = BLAKE2b-192(box[0:32] || pk), box[0:32], sk).
 func Verif_C10_SealAnonymous() {
+	c10AbstractSalsa = true
 	n := []int{0, 1, 40}[verifrt.Choose(0, 2)]
 	pk := c10Arr32(verifrt.Bytes(32))
 	pk0 := pk
